@@ -21,6 +21,8 @@ default) stays with the monitor.
 -/
 import GgrsModel.Proofs.Endpoint
 import GgrsModel.Proofs.Events
+import GgrsModel.Model.P2P
+import GgrsModel.Proofs.Monad
 
 namespace Ggrs.Endpoint
 
@@ -309,3 +311,34 @@ example : accList (.sync 0) [.synchronized] = none := by decide
 example : accList (.running true) [.disconnected, .networkResumed] = none := by decide
 
 end Ggrs.Endpoint
+
+namespace Ggrs.P2P
+
+/-- **C12, "Running exactly when every remote has completed the handshake" (every state).**
+`check_initial_sync` is the only place the session turns Running, and it does so exactly when every
+endpoint — remote players AND spectators — is past its handshake. -/
+theorem C12_running_set (s : P2P) :
+    s.checkInitialSync.running = (s.running ||
+      (s.remotes.all (·.2.isSynchronized) && s.spectators.all (·.2.isSynchronized))) := by
+  unfold checkInitialSync
+  by_cases hr : s.running = true
+  · simp [hr]
+  · have hr' : s.running = false := by simpa using hr
+    by_cases hall : (s.remotes.all (·.2.isSynchronized) && s.spectators.all (·.2.isSynchronized)) = true
+    · simp [hr', hall]
+    · have hall' : (s.remotes.all (·.2.isSynchronized) && s.spectators.all (·.2.isSynchronized)) = false := by simpa using hall
+      rw [if_neg (by simp [hr'])]
+      rw [if_neg hall]
+      simp [hr', hall']
+
+/-- `advance_frame` reports NotSynchronized exactly while the session is not Running (every state). -/
+theorem C12_not_synchronized_iff (s s' : P2P) (now : Nat) (r : Except GgrsError (List Request))
+    (h : s.advanceFrameCore now = .ok (s', r)) : s.running = false → r = .error .notSynchronized ∧ s' = s := by
+  intro hr
+  unfold advanceFrameCore at h
+  simp only [hr, Bool.not_false, if_true] at h
+  have := pure_ok h
+  simp only [Prod.mk.injEq] at this
+  exact ⟨this.2.symm, this.1.symm⟩
+
+end Ggrs.P2P
